@@ -7,6 +7,7 @@ package memagents1
 import (
 	"encoding/json"
 	"fmt"
+	"math/rand"
 	"time"
 
 	"github.com/sarchlab/akita/v5/hooking"
@@ -50,6 +51,14 @@ type dmCase struct {
 	LatOut  int       `json:"lat_out"`
 	PortBuf int       `json:"port_buf"`
 	Seed    uint64    `json:"seed"`
+	// what serves each side: "ideal" (one idealmemcontroller, in-order), "interleaved" (two
+	// idealmemcontrollers with different latencies behind an interleaved mapper, granule by
+	// granule) or "stub" (memStub: seeded per-request delays, completions permuted)
+	MemIn   string `json:"mem_in"`
+	MemOut  string `json:"mem_out"`
+	Lat2In  int    `json:"lat2_in"`  // latency of the second interleaved module
+	Lat2Out int    `json:"lat2_out"` // latency of the second interleaved module
+	StubMax int    `json:"stub_max"` // memStub: delays are 1..StubMax cycles
 }
 
 type dmInput struct {
@@ -161,6 +170,100 @@ func (m *reqMW) Tick() bool {
 	return progress
 }
 
+// memStub is a memory the harness owns: it holds a storage, takes every request from its
+// port at once and answers it after a seeded per-request delay, so that completions are
+// permuted with respect to issue order. Data is read / written at response time. Accesses
+// to overlapping bytes keep their arrival order (as any real memory does).
+type stubReq struct {
+	msg   messaging.Msg
+	lo, n uint64
+	due   uint64
+}
+
+type memStub struct {
+	*modeling.Component[struct{}, struct{}, modeling.None]
+	port    messaging.Port
+	st      *mem.Storage
+	rng     *rand.Rand
+	max     int
+	pending []*stubReq
+	engine  timing.Engine
+}
+
+type stubMW struct{ m *memStub }
+
+func (w *stubMW) Tick() bool {
+	m := w.m
+	now := uint64(m.engine.CurrentTime()) / 1000
+	for {
+		msg := m.port.RetrieveIncoming()
+		if msg == nil {
+			break
+		}
+		r := &stubReq{msg: msg, due: now + 1 + uint64(m.rng.Intn(m.max))}
+		switch q := msg.(type) {
+		case memprotocol.ReadReq:
+			r.lo, r.n = q.Address, q.AccessByteSize
+		case memprotocol.WriteReq:
+			r.lo, r.n = q.Address, uint64(len(q.Data))
+		default:
+			panic(fmt.Sprintf("memStub: unexpected %T", msg))
+		}
+		m.pending = append(m.pending, r)
+	}
+	var rest []*stubReq
+	for _, r := range m.pending {
+		blocked := r.due > now || !m.port.CanSend()
+		for _, e := range rest { // an earlier request on overlapping bytes is still waiting
+			if e.lo < r.lo+r.n && r.lo < e.lo+e.n {
+				blocked = true
+			}
+		}
+		if blocked {
+			rest = append(rest, r)
+			continue
+		}
+		switch q := r.msg.(type) {
+		case memprotocol.ReadReq:
+			data, err := m.st.Read(q.Address, q.AccessByteSize)
+			if err != nil {
+				panic(err)
+			}
+			rsp := memprotocol.DataReadyRsp{Data: data}
+			rsp.ID = timing.GetIDGenerator().Generate()
+			rsp.Src, rsp.Dst, rsp.RspTo = m.port.AsRemote(), q.Src, q.ID
+			rsp.TrafficBytes = len(data) + 4
+			rsp.TrafficClass = "memprotocol.DataReadyRsp"
+			m.port.Send(rsp)
+		case memprotocol.WriteReq:
+			data := q.Data
+			if q.DirtyMask != nil {
+				old, err := m.st.Read(q.Address, uint64(len(q.Data)))
+				if err != nil {
+					panic(err)
+				}
+				for i := range old {
+					if q.DirtyMask[i] {
+						old[i] = q.Data[i]
+					}
+				}
+				data = old
+			}
+			if err := m.st.Write(q.Address, data); err != nil {
+				panic(err)
+			}
+			rsp := memprotocol.WriteDoneRsp{}
+			rsp.ID = timing.GetIDGenerator().Generate()
+			rsp.Src, rsp.Dst, rsp.RspTo = m.port.AsRemote(), q.Src, q.ID
+			rsp.TrafficBytes = 4
+			rsp.TrafficClass = "memprotocol.WriteDoneRsp"
+			m.port.Send(rsp)
+		}
+	}
+	m.pending = rest
+	return len(m.pending) > 0
+}
+
 type memAccess struct {
 	phase int
 	write bool
@@ -212,18 +315,43 @@ func runDMCase(c *dmCase) (res dmResult) {
 	if c.LatOut == 0 {
 		c.LatOut = 3
 	}
-	inMem := mkMem("InsideMem", storages[0], c.LatIn)
-	outMem := mkMem("OutsideMem", storages[1], c.LatOut)
+	// one side: its memory modules' Top ports and the mapper the data mover uses for it
+	mkSide := func(name, kind string, st *mem.Storage, lat, lat2 int, gran uint64) ([]messaging.Port, mem.AddressToPortMapper) {
+		switch kind {
+		case "interleaved":
+			if lat2 == 0 {
+				lat2 = lat + 4
+			}
+			a := mkMem(name+"Mem0", st, lat).GetPortByName("Top")
+			b := mkMem(name+"Mem1", st, lat2).GetPortByName("Top")
+			return []messaging.Port{a, b}, &mem.InterleavedAddressPortMapper{
+				InterleavingSize: gran, LowModules: []messaging.RemotePort{a.AsRemote(), b.AsRemote()}}
+		case "stub":
+			m := &memStub{st: st, rng: rand.New(rand.NewSource(int64(c.Seed*7919) + int64(len(name)))), max: c.StubMax, engine: engine}
+			if m.max <= 0 {
+				m.max = 9
+			}
+			m.Component = modeling.NewBuilder[struct{}, struct{}, modeling.None]().
+				WithEngine(engine).WithFreq(1 * timing.GHz).WithSpec(struct{}{}).Build(name + "Stub")
+			m.AddMiddleware(&stubMW{m: m})
+			m.DeclarePort("Top", memprotocol.Responder)
+			m.port = messaging.NewPort(m, 16, 16, name+"Stub.Top")
+			m.AssignPort("Top", m.port)
+			return []messaging.Port{m.port}, &mem.SinglePortMapper{Port: m.port.AsRemote()}
+		default:
+			p := mkMem(name+"Mem", st, lat).GetPortByName("Top")
+			return []messaging.Port{p}, &mem.SinglePortMapper{Port: p.AsRemote()}
+		}
+	}
+	inPorts, inMapper := mkSide("Inside", c.MemIn, storages[0], c.LatIn, c.Lat2In, c.IG*K)
+	outPorts, outMapper := mkSide("Outside", c.MemOut, storages[1], c.LatOut, c.Lat2Out, c.OG*K)
 
 	spec := datamover.DefaultSpec()
 	spec.BufferSize = c.Buf * K
 	spec.InsideByteGranularity = c.IG * K
 	spec.OutsideByteGranularity = c.OG * K
 	dm := datamover.MakeBuilder().WithRegistrar(regr).WithSpec(spec).
-		WithResources(datamover.Resources{
-			InsideMapper:  &mem.SinglePortMapper{Port: inMem.GetPortByName("Top").AsRemote()},
-			OutsideMapper: &mem.SinglePortMapper{Port: outMem.GetPortByName("Top").AsRemote()},
-		}).Build("DataMover")
+		WithResources(datamover.Resources{InsideMapper: inMapper, OutsideMapper: outMapper}).Build("DataMover")
 	for _, n := range []string{"Top", "Inside", "Outside", "Control"} {
 		dm.AssignPort(n, modeling.MakePortBuilder().WithRegistrar(regr).WithComponent(dm).
 			WithSpec(modeling.PortSpec{BufSize: c.PortBuf}).Build(n))
@@ -245,8 +373,8 @@ func runDMCase(c *dmCase) (res dmResult) {
 		}
 	}
 	mkConn("ConnTop", rq.port, dm.GetPortByName("Top"))
-	mkConn("ConnIn", dm.GetPortByName("Inside"), inMem.GetPortByName("Top"))
-	mkConn("ConnOut", dm.GetPortByName("Outside"), outMem.GetPortByName("Top"))
+	mkConn("ConnIn", append([]messaging.Port{dm.GetPortByName("Inside")}, inPorts...)...)
+	mkConn("ConnOut", append([]messaging.Port{dm.GetPortByName("Outside")}, outPorts...)...)
 
 	// observation: a snapshot of both memories at the instant the data mover
 	// sends each acknowledgment, and every memory request it issues.
@@ -301,10 +429,13 @@ func runDMCase(c *dmCase) (res dmResult) {
 	}
 
 	stranded := 0
-	for _, pc := range []messaging.PortOwner{dm, inMem, outMem, rq} {
+	for _, pc := range []messaging.PortOwner{dm, rq} {
 		for _, p := range pc.Ports() {
 			stranded += p.NumIncoming() + p.NumOutgoing()
 		}
+	}
+	for _, p := range append(append([]messaging.Port{}, inPorts...), outPorts...) {
+		stranded += p.NumIncoming() + p.NumOutgoing()
 	}
 
 	expByte := func(k int, side int, x uint64) byte {
